@@ -11,7 +11,7 @@
     sp = true: with spurious condition-variable wake-ups. *)
 From Coq Require Import List Arith.
 From TLXV Require Import C10.Pool C10.PoolLemmas C10.PoolSafety C10.PoolWait C10.PoolCands C10.PoolLive C10.PoolLive2 C10.PoolLive3
-  C10.PoolLive4 C10.PoolQueue C10.PoolExamples.
+  C10.PoolLive4 C10.PoolQueue C10.PoolTerm C10.PoolExamples.
 Import ListNotations.
 
 (** Safety (holds for both code variants, with spurious wake-ups): no enqueue instance ("ticket") is
@@ -23,6 +23,14 @@ Theorem C10_at_most_once : forall cfg fx sp s,
   (forall tk, In tk (ended (shr s)) -> In tk (started (shr s))) /\ NoDup (ended (shr s)).
 Proof. exact at_most_once. Qed.
 Print Assumptions C10_at_most_once.
+
+(** What terminate() / the destructor promise about QUEUED jobs ("return once the RUNNING jobs finish"): once terminate_ is
+    set, no further job is started -- the step that pops a job (the only step that changes [started]) happens only in states
+    with terminate_ = false.  The backlog is dropped, never drained.  Both code variants, with spurious wake-ups. *)
+Theorem C10_no_job_started_after_terminate : forall cfg fx sp s te s',
+  reachable_gen cfg fx sp s -> lstep_gen cfg fx sp s te = Some s' -> started (shr s') <> started (shr s) -> term (shr s) = false.
+Proof. exact no_job_started_after_terminate. Qed.
+Print Assumptions C10_no_job_started_after_terminate.
 
 (** Whenever loop_until_empty returns in some thread t (event [EUnlockR n]: unlock + return, the caller
     sees n finished job bodies): no job is queued or running (busy_ = 0, no thread inside a job body),
